@@ -23,16 +23,17 @@
 //! `stripe run` reads input lines on stdin and prints them followed by
 //!     ` => <obs>;<obs>;...`
 //! one observation per op: `P` when the op panicked (ends the case), otherwise
-//!     len|wrap|rows|<row>/<row>/...|<index results>|<count_symbols>|<count_symbol per symbol>|<bm>|<all>
+//!     len|wrap|rows|<row>/<row>/...|   (len prefixed with `!` when is_empty() / as_ref() disagree with len() / matrix())
+//!     ...|<index results>|<count_symbols>|<count_symbol per symbol>|<bm>|<all>
 //! rows one char per cell (`-` when there are no rows), index results one char
 //! per sampled index of `idx` (`P` = Index panicked), counts comma separated,
 //! all = Index at every position 0..len() (one char each, `P` = panicked, `-` when len() = 0),
 //! a 10th field x: `-`, or for `sm` ops `<draws>,<enc>` = the stream oracle (EncodedSequence::sample
 //! with the same seed / background for rows*C symbols = the draws in order) and
 //! EncodedSequence::sample(.., n),
-//! bm = `n` (not a stripe op or C != 32), `=` (generic and AVX2 stripe_into of
-//! this sequence into clones of the buffer gave identical len/wrap/matrix) or
-//! `!<detail>`.
+//! bm = `n` (not a stripe op or C != 32: no AVX2 kernel exists), `<len>,<wrap>,<matrix>~<len>,<wrap>,<matrix>`
+//! (the results of the generic and of the AVX2 stripe_into / stripe of this sequence on clones of the
+//! buffer; the extracted checker check_agree decides whether they agree) or `!<who>-panic`.
 
 use lightmotif::abc::{Alphabet, Background, Dna, Protein, Symbol};
 use lightmotif::dense::DenseMatrix;
@@ -294,8 +295,13 @@ fn observe<A: Alphabet, C: PositiveLength>(st: &StripedSequence<A, C>, idx: &[us
             None => 'P',
         })
         .collect();
+    // the remaining getters / AsRef impls: is_empty() <-> len() == 0, as_ref() = the object / its matrix
+    let getters_ok = st.is_empty() == (st.len() == 0)
+        && std::ptr::eq(AsRef::<DenseMatrix<A::Symbol, C>>::as_ref(st), st.matrix())
+        && std::ptr::eq(AsRef::<StripedSequence<A, C>>::as_ref(st), st);
     format!(
-        "{}|{}|{}|{}|{}|{}|{}|{}|{}|{}",
+        "{}{}|{}|{}|{}|{}|{}|{}|{}|{}|{}",
+        if getters_ok { "" } else { "!" },
         st.len(),
         st.wrap(),
         st.matrix().rows(),
@@ -325,25 +331,10 @@ fn backend_mismatch<A: Alphabet, C: Cols<A>>(buf: &StripedSequence<A, C>, seq: &
             }
         })
     };
+    // both states are printed; the extracted checker check_agree decides (a panic is a mismatch)
+    let show = |st: &StripedSequence<A, C>| format!("{},{},{}", st.len(), st.wrap(), show_matrix(&matrix_of(st)));
     match (run("g"), run("a")) {
-        (Some(g), Some(a)) => {
-            if g.len() != a.len() {
-                return format!("!len:{}:{}", g.len(), a.len());
-            }
-            if g.wrap() != a.wrap() {
-                return format!("!wrap:{}:{}", g.wrap(), a.wrap());
-            }
-            let (mg, ma) = (matrix_of(&g), matrix_of(&a));
-            if mg.len() != ma.len() {
-                return format!("!rows:{}:{}", mg.len(), ma.len());
-            }
-            for r in 0..mg.len() {
-                if mg[r] != ma[r] {
-                    return format!("!row{}:{}:{}", r, show_seq(&mg[r]), show_seq(&ma[r]));
-                }
-            }
-            "=".to_string()
-        }
+        (Some(g), Some(a)) => format!("{}~{}", show(&g), show(&a)),
         (None, None) => "!both-panic".to_string(),
         (None, _) => "!generic-panic".to_string(),
         (_, None) => "!avx2-panic".to_string(),
@@ -735,6 +726,9 @@ fn show_case(id: &str, alpha: &str, k: usize, c: usize, ops: &[Op], idx: &[usize
     )
 }
 
+/// 1101 + (272+1) + (72+1) + (20+1) + (6+1) cases of the generic sweep of the thorough tier
+const GENERIC_SWEEP: usize = 1101 + 273 + 73 + 21 + 7;
+
 fn gen_case(rng: &mut Rng, id: usize, tier: &str) -> String {
     let (alpha, k) = if rng.chance(1, 2) { ("dna", 5usize) } else { ("protein", 21usize) };
     // thorough tier: the first 2202 cases sweep every length 0..=1100 through the
@@ -753,6 +747,47 @@ fn gen_case(rng: &mut Rng, id: usize, tier: &str) -> String {
         let mut idx = vec![0, len.saturating_sub(1), len, rc.saturating_sub(1), rc];
         idx.dedup();
         return show_case(&id.to_string(), alpha, k, 32, &ops, &idx);
+    }
+    // thorough tier: the next 1475 cases sweep every new length 0..=1100 (C = 32) and 0..=C*C+C
+    // (C = 16, 8, 4, 2) through the kernels that run the PROVIDED stripe_into (generic pipeline and the
+    // dispatcher's Generic / Sse2 / arm arms) into a reused destination that held a longer sequence
+    // without any wildcard (seeded/C04/5: every (old, new) pair class, exhaustively below C*C)
+    if tier == "thorough" && id < 2202 + GENERIC_SWEEP {
+        let mut kk = id - 2202;
+        let (c, len) = if kk < 1101 {
+            (32usize, kk)
+        } else {
+            kk -= 1101;
+            let mut found = (2usize, 0usize);
+            for &c in &[16usize, 8, 4, 2] {
+                let n = c * c + c + 1;
+                if kk < n {
+                    found = (c, kk);
+                    break;
+                }
+                kk -= n;
+            }
+            found
+        };
+        let b = match c {
+            32 => ["g", "dg", "ds"][id % 3],
+            16 => ["g", "ng", "nn"][id % 3],
+            _ => "g",
+        };
+        let b0 = if c == 16 && b != "g" { b } else { "g" };
+        let nowild = |rng: &mut Rng, n: usize| -> Vec<usize> { (0..n).map(|_| rng.below(k as u64 - 1) as usize).collect() };
+        let old = len + c * (1 + rng.below(6) as usize) + rng.below(c as u64) as usize;
+        let new_seq = if rng.chance(4, 5) { nowild(rng, len) } else { gen_seq(rng, k, len) };
+        let ops = vec![
+            Op::StripeInto(b0.to_string(), nowild(rng, old)),
+            Op::ConfigureWrap(rng.below(4) as usize),
+            Op::StripeInto(b.to_string(), new_seq),
+            Op::ConfigureWrap(1 + rng.below(3) as usize),
+        ];
+        let rc = ((len + c - 1) / c) * c;
+        let mut idx = vec![0, len.saturating_sub(1), len, rc.saturating_sub(1), rc];
+        idx.dedup();
+        return show_case(&id.to_string(), alpha, k, c, &ops, &idx);
     }
     let c = *rng.pick(&[1usize, 2, 4, 8, 16, 16, 48, 64, 32, 32, 32, 32, 32, 32]);
     if rng.chance(1, 7) {
